@@ -41,6 +41,10 @@ EXPLANATION += " Added: (R7) the documenting decorators attach the declared list
 # --- metadata added for batch 8
 EXPLANATION += ' Added: (R11) no file-system effect in the dump entry points before selection and pre-flight are through (C08-R1): `FileFormatError without touching the file system`.'
 # --- end metadata batch 8
+# --- metadata added after the round-2 refactoring twins
+TECHNIQUE += '; whole evaluation of the documentation decorator factories'
+EXPLANATION += ' R7: every public document_* factory is interpreted as a whole (its value is the decorator closure, which is applied to a model function object) with all lists given and with the optional list omitted; the lists attached are read off the object.'
+# --- end metadata round-2 twins
 TRUSTED = ["CPython ast parser", "pkgutil.iter_modules yields modules in sorted name order", "fnmatch glob semantics (* ? [seq])"]
 
 OPS = ("load_one", "load_many", "dump_one", "dump_many")
